@@ -102,7 +102,10 @@ def _run(mod, a, t0):
     n_corpus = 0
     for name, fn in mod.corpus():
         n_corpus += 1
-        r = fn()
+        try:
+            r = fn()
+        except Exception as e:  # a reproducer that crashes is itself a finding
+            r = "reproducer raised %s: %s" % (type(e).__name__, e)
         if r:
             discrepancies.append(Discrepancy({"corpus": name}, "regression corpus %s: %s" % (name, r),
                                              {"corpus": name, "result": r}))
